@@ -233,6 +233,21 @@ pub fn test_case(ctx: &Ctx, case: &Case, rep: &mut Report) -> Result<(), Violati
         if let Ok(r) = guard(|| c.authorize()) {
             outcomes.insert(normalize(r));
         }
+        // rebuilt from its own snapshot (same contents, new object, new hash seeds)
+        if let Ok(Ok(snap)) = guard(|| a.to_raw_snapshot()) {
+            match guard(|| biscuit_auth::Authorizer::from_raw_snapshot(&snap).map(|mut r| r.authorize())) {
+                Ok(Ok(r)) => {
+                    rep.class("rebuilt_from_snapshot");
+                    outcomes.insert(normalize(r));
+                }
+                Ok(Err(e)) => {
+                    outcomes.insert(Outcome::Panic(format!("the authorizer cannot be rebuilt from its own snapshot: {e:?}")));
+                }
+                Err(p) => {
+                    outcomes.insert(Outcome::Panic(format!("{} at {}:{}", p.message, p.site(), p.line)));
+                }
+            }
+        }
         for _ in 0..2 {
             match guard(|| a.authorize()) {
                 Ok(r) => {
